@@ -79,6 +79,11 @@ def step (toks : List String) (impl : String) : Res :=
   match toks.head? with
   | some "findnodes" => stepResponder toks impl
   | some "nodesresp" => stepAsker toks impl
+  | some "concfindnodes" =>
+    -- replies built at the same time for askers with different distances: each holds only records at ITS requested distance
+    { model := "badreplies=0 badrecords=0",
+      monitor := if impl == "badreplies=0 badrecords=0" then [] else ["only_requested_distances_when_asked_concurrently"],
+      tags := ["concfindnodes"] }
   | _ => { model := "bad-op", tags := ["bad-op"], nontrivial := false }
 
 end Drv.C11
